@@ -37,6 +37,7 @@ type SessCfg struct {
 	NickCollide        string // "", "suffix:<s>", "empty", "fixed:<nick>"
 	DisableTracking    bool
 	NoRecover          bool
+	MutatingHandlers   bool // user handlers that scribble on the event they are handed (a bridge rewriting source/target)
 }
 
 type Step struct {
@@ -245,6 +246,22 @@ func runSession(s *Session) *SessResult {
 	if s.Cfg.DisableTracking {
 		c.DisableTracking()
 	}
+	if s.Cfg.MutatingHandlers {
+		// every handler gets its OWN copy of the event: what one of them does to it is nobody else's business
+		scribble := func(_ *girc.Client, e girc.Event) {
+			if e.Source != nil {
+				e.Source.Name, e.Source.Ident, e.Source.Host = "bridge-"+e.Source.Name, "scribbled", "scribbled"
+			}
+			if len(e.Params) > 1 {
+				e.Params[0] = "#scribbled" // (a bridge rewrites who said it and where; the text stays)
+			}
+		}
+		// (foreground handlers of PRIVMSG/NOTICE share their copy only with updateLastActive, which touches nothing but
+		// timestamps; the wildcard foreground group is left alone because the tracker's handleTags lives there)
+		c.Handlers.Add(girc.PRIVMSG, scribble)
+		c.Handlers.Add(girc.NOTICE, scribble)
+		c.Handlers.AddBg(girc.ALL_EVENTS, scribble)
+	}
 	cliConn, srvConn := net.Pipe()
 	connDone := make(chan error, 1)
 	go func() { connDone <- c.MockConnect(cliConn) }()
@@ -376,6 +393,7 @@ func runSession(s *Session) *SessResult {
 			return false
 		}
 	}
+	markAt := 0
 	for si, st := range s.Steps {
 		if res.Wedged {
 			break
@@ -462,6 +480,36 @@ func runSession(s *Session) *SessResult {
 				res.Timings = append(res.Timings, [4]float64{ms(arrivals[k-1]), -3, ms(arrivals[k]), float64(len(written[k]))})
 				res.TimedLines = append(res.TimedLines, written[k])
 			}
+			wmu.Unlock()
+		case "collectarrivals":
+			// wait until the client has written Arg more lines than at the last "lastarrival"/timed call, then report the
+			// arrival time of each (marker -4 = written in answer to received lines, no helper call)
+			var want int
+			fmt.Sscan(st.Arg, &want)
+			from := markAt
+			dl := time.Now().Add(25 * time.Second)
+			for time.Now().Before(dl) {
+				wmu.Lock()
+				n := len(written)
+				wmu.Unlock()
+				if n >= from+want {
+					break
+				}
+				time.Sleep(time.Millisecond)
+			}
+			wmu.Lock()
+			for k := from; k < len(written); k++ {
+				prev := -1.0
+				if k > 0 {
+					prev = float64(arrivals[k-1].Sub(t0).Microseconds()) / 1000
+				}
+				res.Timings = append(res.Timings, [4]float64{prev, -4, float64(arrivals[k].Sub(t0).Microseconds()) / 1000, float64(len(written[k]))})
+				res.TimedLines = append(res.TimedLines, written[k])
+			}
+			wmu.Unlock()
+		case "marklines":
+			wmu.Lock()
+			markAt = len(written)
 			wmu.Unlock()
 		case "lastarrival":
 			wmu.Lock()
